@@ -57,9 +57,7 @@ def judge(rec, obs, pinned_only=True):
         if kb != kr[:len(kb)]:
             return "events before the read error are not a prefix of the reference"
         return None
-    if fault and scn.get("faultKind") == "intr" and res == "ok":
-        pass  # an interrupted read may be retried by a layer below the roll buffer
-    elif fault and obs.get("nreads", 0) >= fault:
+    if fault and obs.get("nreads", 0) >= fault:
         return "read error at read %d not returned (result %s)" % (fault, res)
     # uninterrupted
     if res != "ok":
@@ -95,6 +93,14 @@ def judge_binary(scn, obs, allowed):
     if stream_key(obs["out"], obs["result"]) not in allowed:
         return "observed stream is not allowed by the Searcher model under any read history"
     return None
+
+
+def peek_phase(scn, obs):
+    """Was the injected read fault delivered while the transcoding layer was still peeking for a BOM (its first 3 bytes)?"""
+    j = scn.get("faultAt", 0)
+    gots = obs.get("gots", [])
+    # the peek ends once 3 bytes have arrived or the source has reported end of input
+    return bool(j) and sum(gots[:j - 1]) < 3 and 0 not in gots[:j - 1]
 
 
 def mechanism(rec):
@@ -187,6 +193,8 @@ def explore(chk, cfgname, workers=12, timeout=900, variants=("as_is",), simulate
         if why is not None:
             sig = mechanism(r)
             sig["variant"] = j["_v"]
+            if j["_v"] == "intr":
+                sig["interrupted_in_bom_peek"] = peek_phase(j["scn"], o)
             chk.violation(sig, {"why": why, "scenario": {k: v for k, v in j.items() if not k.startswith("_")},
                                 "reference": r["ref"], "observed": o, "driver": "replay_search",
                                 "allowed": sorted(allowed.get(scn_key(r["scn"]), []))})
